@@ -35,14 +35,15 @@ var r *report.Run
 // reported counterexample does not depend on goroutine scheduling.
 
 type vcase struct {
-	Check    string   `json:"check"` // construct | step | probe | sequence | copy
-	Vector   []int64  `json:"vector"`
-	History  []opRec  `json:"history"`      // operations that lead to the state (all accepted)
-	Op       *opRec   `json:"op,omitempty"` // the operation judged (check=step)
-	Rounds   int      `json:"rounds,omitempty"`
-	Wide     bool     `json:"wide_pool,omitempty"` // addresses index the 24-address pool of the wide phase
-	State    string   `json:"state_before"`
-	Expected []string `json:"expected_signatures"`
+	Check    string    `json:"check"` // construct | step | probe | sequence | copy
+	Vector   []int64   `json:"vector"`
+	History  []opRec   `json:"history"`      // operations that lead to the state (all accepted)
+	Op       *opRec    `json:"op,omitempty"` // the operation judged (check=step)
+	Rounds   int       `json:"rounds,omitempty"`
+	Wide     bool      `json:"wide_pool,omitempty"`        // addresses index the 24-address pool of the wide phase
+	Exec     *execCase `json:"executor_history,omitempty"` // check=executor: base set and report tokens per block
+	State    string    `json:"state_before"`
+	Expected []string  `json:"expected_signatures"`
 }
 
 type vrec struct {
@@ -535,6 +536,9 @@ func replayCase(c vcase) []finding {
 	if c.Check == "wide" {
 		return replayWide(c)
 	}
+	if c.Check == "executor" {
+		return replayExecutor(c)
+	}
 	vs, err := build(c.Vector, c.History)
 	if err != nil {
 		return []finding{{"C12|oracle=harness-replay", err.Error(), nil}}
@@ -654,6 +658,11 @@ func main() {
 		r.Set("info_change_for_all_zero_address", fmt.Sprintf("UpdateWithChangeSet([{0x00..00, power 5}]) on %v: panicked=%v err=%v", vectors[0], panicked, err))
 	}
 	runWide()
+	if r.Quick() {
+		runExecutorStage(3, 300)
+	} else {
+		runExecutorStage(4, 0)
+	}
 	complete := true
 	var doneStages []string
 	for _, s := range stages {
@@ -722,6 +731,7 @@ func main() {
 		"EVERY distinct permutation of every change set is executed on its own copy. Stages: A = k<=2, all histories of depth 3; B = k<=3, depth 2; C = k<=3, depth 3; D = k<=3, depth 4 (quick runs A only; thorough runs A,B then C,D until the deadline). "+
 		"States are de-duplicated on (ordered (address,power,priority) list, proposer); states = distinct states reached (frontier states by 64-bit hash); transitions = operations executed on real objects. "+
 		"Phase 'wide change sets' (every tier, before the stages): from roots [1], [1,2], [cap/2], [cap/4+1,1] over a 24-address pool, change sets of EVERY size n = 1..17 for P in {cap, cap-1, cap/2+1, cap/4+1, cap/8+1, cap/16+1, 1}: n adds of P; raise every member to P plus adds; remove one member, raise the rest, plus adds; adds with powers cycling (P,1,cap/4+1); n-1 adds of P plus a last add that makes the total exactly cap resp. cap+1 - so the requested totals fall in every class <=cap, (cap,2^62), [2^62,2^63), [2^63,2^64), >=2^64; each executed in its given order, rotated by 1, rotated by n/2 and reversed, accepted results probed and advanced one round. "+
+		"Stage 'history through the executor' (every tier): the real cstate.BlockExecutor.ApplyBlock (genesis state from MakeGenesisState, real store on memorydb, valid blocks with commits signed by every validator of the previous height, stub application returning the FULL validator list per height) over EVERY history of 3 (thorough 4) consecutive blocks whose reports are drawn from 14 tokens relative to the application's current list {same; re-power X; revert X; re-power H(eavy); revert H; remove Y; re-add Y same/other power; add newcomer N; remove N; report permuted; empty report; remove H; X reported with negative power} on 2 base sets (3 equal validators; 4 validators 10/20/30/1000); after every block Validators, NextValidators, LastValidators (members, powers, priorities, order, proposer) and LastHeightValidatorsChanged are compared with the reference applied to the same history (change set = reported list minus NextValidators, in force two heights later, one round per height), a history the reference accepts must be accepted and one it rejects must be rejected with the state unchanged, and from every final NextValidators the proposer sequence of min(2*total, 300; thorough 2*total) rounds is compared with the reference. "+
 		"From every state of depth < max the per-state oracles run: cached total, RescalePriorities(2*total) against the reference, and (total <= 2000) the proposer sequence of 2*total further rounds against the reference.")
 	r.Assume(
 		"the specification is DESIGN.md appendix A.4 (Tendermint proposer-priority rules) transcribed in math/big by the checker (ref.go)",
@@ -730,6 +740,7 @@ func main() {
 		"the proposer is compared after IncrementProposerPriority and NewValidatorSet only: the specification defines no proposer after an update (UpdateWithChangeSet leaves the Proposer field stale; production always increments next)",
 		"the empty change set is not offered (the code returns nil without re-centring; production never passes it)",
 		"the all-zero address is not in the address pool (see FINDINGS.md O1)",
+		"executor stage: an empty report from the application asks for no change (calculateValidatorSetUpdates returns nothing for an empty list; the application never reports an empty set); the stored copy of the state (Store.Save/Load) is C14's subject and is not compared here; blocks carry no transactions and no evidence",
 		"fairness and no-starvation are checked as consequences: equality of the proposer sequence with the reference for 2*total rounds; the hand-derived bounds on the reference itself are reported as ref_selftest_* and never decide the verdict",
 		"64-bit hashes of canonical keys de-duplicate states; a collision could only skip the expansion of a state, never cause a violation")
 
